@@ -180,8 +180,21 @@ def inject(crate):
         if fn.endswith(".rs"):
             fp = os.path.join(vdir, fn)
             t = open(fp).read()
-            if "//@waker_stubs" in t:
-                open(fp, "w").write(re.sub(r"^[ \t]*//@waker_stubs[ \t]*\n", stubs, t, flags=re.M))
+            t2 = re.sub(r"^[ \t]*//@waker_stubs[ \t]*\n", stubs, t, flags=re.M)
+            # Every other harness gets the same stubs: since the last queue handle flushes the submission queue on
+            # drop (a10 74d2b0f), any Arc<Shared> drop in the code under test statically reaches enter() and
+            # wake_blocked_futures(), i.e. calls through waker vtables, which CBMC resolves by signature.
+            out, pos = [], 0
+            for m in re.finditer(r"^[ \t]*#\[kani::proof\]", t2, flags=re.M):
+                head = t2[max(0, m.start() - 600):m.start()]
+                k = max(head.rfind("\n\n"), head.rfind("}\n"))
+                if "stub_waker_wake" not in head[k if k >= 0 else 0:]:
+                    out.append(t2[pos:m.start()] + stubs)
+                    pos = m.start()
+            out.append(t2[pos:])
+            t2 = "".join(out)
+            if t2 != t:
+                open(fp, "w").write(t2)
     for m in spec["modules"]:
         host = os.path.join(crate, m["host"])
         if not os.path.exists(host):
